@@ -1,12 +1,9 @@
+#include "specdefs.h"
 /* Call-level log of the bounded sampler, sampled at the arbitrary index ghost_j
  * (never assigned).  tmcg_mpz_srandom_mod is given a BODY here: pure ghost
  * logging followed by a call of tmcg_mpz_srandom_mod__spec, which carries the
  * contract that group C07_sampler proves for the real function (imported by
  * the driver, replaced with --replace-call-with-contract). */
-size_t mod_n;              /* number of sampler calls so far              */
-size_t ghost_j;            /* arbitrary, never assigned                   */
-unsigned long ghost_jmod;  /* modulus of call number ghost_j              */
-unsigned long ghost_jret;  /* result of call number ghost_j               */
 unsigned long tmcg_mpz_srandom_mod(unsigned long modulo)
 {
   unsigned long r = tmcg_mpz_srandom_mod__spec(modulo);
@@ -15,9 +12,3 @@ unsigned long tmcg_mpz_srandom_mod(unsigned long modulo)
   mod_n = mod_n + 1;
   return r;
 }
-#ifndef MAXN
-#define MAXN 512 /* TMCG_MAX_CARDS */
-#endif
-/* universal quantifier over indices; the constant guard lets the SAT back end
- * expand it completely in the small-size finder variant (-DMAXN=5) */
-#define ALL(k, body) __CPROVER_forall { size_t k; (k < MAXN) ==> (body) }
